@@ -50,7 +50,18 @@ def end_to_end(tier, d):
         if tier != "quick":
             sc.append(hc.scen(f"rng{g}_ck2T3", m, T=3, ck=2, p=1, j=2, deadline=900))
             sc.append(hc.scen(f"rng{g}_p2", m, T=2, ck=3, p=2, j=8, deadline=1500))
-    return vc.rsched_scenarios(PID, "h_run", b1, sc, d, workers=4)
+    reps, m, viol = vc.rsched_scenarios(PID, "h_run", b1, sc, d, workers=4)
+    # two ranks: the coast forward has to step over the history marks of events sent to another node as well
+    b2 = hc.build(os.path.join(d, "hrun2"), ranks=2)
+    sc2 = [hc.scen("r2_rng2_ck3", models.text(3, [1, 2, 7], [2, 1, 7], P=5, K=6, G=2, H=5, M=1), T=1, ck=3, p=1, d=1, j=4, deadline=900),
+           hc.scen("r2_m0_ck4", models.text(2, [1, 2], [2, 1, 7], P=5, K=5, H=6), T=1, ck=4, p=1, d=0, j=2, deadline=900)]
+    if tier != "quick":
+        sc2.append(hc.scen("r2x2_ck3", models.text(4, [1, 2, 7, 1], [2, 1, 7], P=5, K=5, M=1, H=4), T=2, ck=3, p=1, d=1, j=8, deadline=1500))
+    reps2, m2, viol2 = vc.rsched_scenarios(PID, "h_run2", b2, sc2, d, workers=2)
+    # the step function under every delivery order: state after every rollback + coast forward = forward state
+    preps, pm, pviol = hc.proc_part(PID, d, tier, part="small")
+    allreps = reps + reps2 + preps
+    return allreps, vc.merge_rsched(allreps), viol + viol2 + pviol
 
 
 def run(tier, seed):
@@ -75,7 +86,8 @@ def run(tier, seed):
     cov["runs"] = [{"args": r["args"], "events": r.get("events"), "arena_bytes": r.get("arena_bytes"), "scenarios": r["evaluations"],
                     "exhaustive": r.get("exhaustive")} for r in reps][:10]
     cov["end_to_end"] = {"executions": em["executions"], "with_coast_forward": hc_nz(em, "silent_executions"),
-                         "scenarios": [r["id"] for r in ereps]}
+                         "scenarios": [r["id"] for r in ereps], "remote_events_sent": hc_nz(em, "remote_events_sent")}
+    cov["evaluations"] = tot["evaluations"] + em["executions"]
     cov["rule"] = ("every history of n allocator events (malloc of 1 block / 2 blocks / half / whole arena, free, realloc, write) x "
                    "checkpoint interval 1..c (forced checkpoint after the init event, as lp/process.c) x rollback target q (at, between "
                    "and right after checkpoints) x second rollback target q2; each scenario = first run, real restore, coast forward, "
@@ -83,15 +95,23 @@ def run(tier, seed):
                    "rollback; states = scenarios, transitions = rollbacks performed; non-trivial = target strictly between checkpoints "
                    "(coast forward needed) or arenas created after the restored checkpoint")
     vc.write_evidence(PID, tier, "model_checking", cov,
-                      ["blocks (re)allocated by re-execution are compared by identity, size and content, not by address (a re-executed "
-                       "malloc may be served by an arena created after the restored checkpoint); blocks that existed at the restored "
-                       "checkpoint must keep their address",
-                       "event suppression during coast forward and the RNG stream are checked end-to-end by the h_run checks (C01/C09)"],
+                      ["after restore + coast forward every live block is where the first run had it: blocks that existed at the restored "
+                       "checkpoint and blocks allocated by the still-valid events re-executed silently (first rollback of each scenario); blocks "
+                       "re-allocated by events the rollback had undone are compared by identity, size and content only",
+                       "event suppression during coast forward and the RNG stream: end-to-end part (h_run on RNG-driven models, 1 and 2 ranks with "
+                       "checkpoint intervals 3-4 so that coast forward crosses local and remote sends; h_proc: every delivery order, state after "
+                       "every rollback = state published by the forward execution of the last remaining event)"],
                       time.time() - t0, n, seed)
     return 1 if n else 0
 
 
 def replay(path):
+    if path.endswith(".replay"):
+        from checks import hrun_common as hc
+        d = vc.fresh_dir(PID + "_replay")
+        if hc.is_proc_replay(path):
+            return vc.rsched_replay(hc.build_proc(d), path)
+        return vc.rsched_replay(hc.build(d, ranks=2 if os.path.basename(path).startswith("r2") else 1), path)
     r = json.load(open(path))
     d = vc.fresh_dir(PID + "_replay")
     b = build(d)
